@@ -101,6 +101,12 @@ class HTTP2Connection(ConnectionInterface):
                 raise ConnectionNotAvailable()
 
         with self._init_lock:
+            if self._state == HTTPConnectionState.CLOSED:
+                # The connection was closed while we were waiting for the
+                # lock: sending the connection preface failed for the
+                # request ahead of us. Nothing has been sent for this one.
+                raise ConnectionNotAvailable()
+
             if not self._sent_connection_init:
                 try:
                     kwargs = {"request": request}
